@@ -214,8 +214,7 @@ Definition al := list (nat * nat).
 Fixpoint al_find (k : nat) (l : al) : option nat :=
   match l with [] => None | (k', v) :: t => if k' =? k then Some v else al_find k t end.
 Definition al_insert (k v : nat) (l : al) : al := match al_find k l with Some _ => l | None => l ++ [(k, v)] end.
-Fixpoint al_set (k v : nat) (l : al) : al :=
-  match l with [] => [] | (k', v') :: t => if k' =? k then (k', v) :: t else (k', v') :: al_set k v t end.
+Definition al_set (k v : nat) (l : al) : al := map (fun p => if fst p =? k then (fst p, v) else p) l.
 Definition al_erase (k : nat) (l : al) : al := filter (fun p => negb (fst p =? k)) l.
 
 Record sstate := mkss { s0 : al; s1 : al; scur : bool }.
